@@ -21,6 +21,7 @@ package fasthttp
 import (
 	"context"
 	"bytes"
+	"errors"
 	"fmt"
 	"io"
 	"net"
@@ -261,6 +262,7 @@ type vpC14Hist struct {
 	Plan      []int
 	EOFFirst  bool   // nobytes: client EOF is already there when the server gets the connection
 	End       string // eof | timeout | shutdown (left idle; Server.Shutdown ends it)
+	CloseErr  bool   // the connection's Close() closes it and reports an error
 	WriteFail int    // > 0: the client is gone for writing - Write fails once this many bytes went out (a fault at whichever write crosses it)
 }
 
@@ -269,7 +271,7 @@ func (h vpC14Hist) String() string {
 	for _, u := range h.Units {
 		us = append(us, vpQuote(u, 60))
 	}
-	return fmt.Sprintf("{%s units=[%s] trailing=%d pipelined=%v plan=%v eoffirst=%v end=%s writefail=%d}", h.Kind, strings.Join(us, ", "), len(h.Trailing), h.Pipelined, h.Plan, h.EOFFirst, h.End, h.WriteFail)
+	return fmt.Sprintf("{%s units=[%s] trailing=%d pipelined=%v plan=%v eoffirst=%v end=%s writefail=%d closeerr=%v}", h.Kind, strings.Join(us, ", "), len(h.Trailing), h.Pipelined, h.Plan, h.EOFFirst, h.End, h.WriteFail, h.CloseErr)
 }
 
 type vpC14Cfg struct {
@@ -420,6 +422,9 @@ func (e *vpC14Env) serve(w *vpWire) {
 func (e *vpC14Env) runConn(h vpC14Hist, hold bool) (w *vpWire, starts []int, finish func()) {
 	w = vpNewWire(nil, h.Plan, false)
 	w.writeErrAfter = h.WriteFail
+	if h.CloseErr {
+		w.closeErr = errors.New("vp: close reports an error")
+	}
 	e.mu.Lock()
 	e.nWires++
 	w.remote = &net.TCPAddr{IP: net.IPv4(10, 1, 2, byte(3+e.nWires%2)), Port: 40000 + e.nWires}
@@ -717,6 +722,7 @@ func vpC14GenHist(t *rapid.T, lb string, kind string) vpC14Hist {
 		}
 		h.Pipelined = true
 	}
+	h.CloseErr = rapid.IntRange(0, 5).Draw(t, lb+"closeerr") == 0
 	if (kind == "requests" || kind == "hijack" || kind == "malformed" || kind == "partial") && rapid.IntRange(0, 4).Draw(t, lb+"writefail") == 0 {
 		// a write fault: at the first byte, inside the first response, or at a later response / the write-out that
 		// precedes a hijack hand-over
